@@ -583,6 +583,7 @@ func (d *Director) Forge(attacker *Actor, victim *Actor, wl *Wallet) {
 	}
 	_ = shortSig
 	op := fmt.Sprintf("#%d forged %s (%s) for %s from %s", d.n, endpoint, what, w.N(identity), attacker.Name)
+	w.S.Fault("altered_signed_request")
 	before := w.Digest()
 	muts := w.YS.MutationCount()
 	ctx, cancel := d.ctx()
@@ -706,6 +707,7 @@ func (d *Director) Stale(a *Actor, tooOld bool) {
 		endpoint, args, class = "vipnode_update", old, "replayed old-format keep-alive"
 	}
 	op := fmt.Sprintf("#%d stale %s (%s) by %s", d.n, endpoint, class, a.Name)
+	w.S.Fault("replayed_or_stale_request")
 	before := w.Digest()
 	ctx, cancel := d.ctx()
 	defer cancel()
@@ -720,6 +722,12 @@ func (d *Director) Stale(a *Actor, tooOld bool) {
 	}
 	if after := w.Digest(); after != before {
 		d.bad("C06", "no_trace", "refused request changed pool state: "+endpoint, "%s refused with %q but state changed:\n%s", op, err, diffLines(before, after))
+	}
+	// no trace also means: the owner's next legitimate request is served as if nothing had happened
+	if _, e := w.Ref.GetNode(storeID(a)); e == nil && d.on["C06"] && !d.W.S.Violated() {
+		if _, e2 := d.Update(a, nil, 1); e2 != nil && !isLowBalance(e2) {
+			d.bad("C06", "no_trace", "owner's next request refused after a refused request", "%s; then update(%s): %v", op, a.Name, e2)
+		}
 	}
 }
 
